@@ -518,6 +518,12 @@ def check_send_message(ctx):
         ok = len(puts) == 1 and len(w) >= 1
         ctx.ob("C10.P4", q, ok, "each block is queued once and awaited inside the loop" if ok else f"per block: {len(puts)} put(s), {len(w)} wait(s)",
                key="put-wait", where=func.where)
+        # ... once: a loop around the put inside the loop over the blocks queues the same block again; what the transport
+        # wrote of the failed attempt is already on the wire, so the peer reads the start of the block twice
+        inner = [lp for lp in ast.walk(f) if lp is not f and isinstance(lp, (ast.For, ast.While)) and any(c in list(calls_in(lp)) for c in puts)]
+        ctx.ob("C10.P4", q, not inner, "no block is queued a second time" if not inner else
+               f"the put of a block is inside `{norm(inner[0]).splitlines()[0][:70]}` within the loop over the blocks: a block whose send failed is queued again from its first byte, although the bytes the transport had already written stay on the wire - the peer reads them twice, and the call reports success",
+               key="queued-once", where=func.where)
         if puts and w:
             pn = next(n for n in cfg.real_nodes() if puts[0] in n.calls)
             wn = next(n for n in cfg.real_nodes() if w[0] in n.calls)
@@ -527,6 +533,29 @@ def check_send_message(ctx):
             ok = any(cfg.dominates(pn, t) and cfg.dominates(t, wn) for t in trig)
             ctx.ob("C10.P4", q, ok, "the sender thread is triggered after queueing and before waiting" if ok else
                    "no trigger_receiver between put and wait: the block sits in the queue until unrelated traffic wakes the sender", key="trigger", where=func.where)
+
+
+def check_send_queue_writers(ctx, rule="C10.P4"):
+    """Every block handed to the send queue is awaited by the function that queued it: the answer of the transport
+    (`resolve(False)` after a socket error) reaches a caller only through `wait()` on that very object.  A second way
+    into the queue that returns at once reports success for bytes that may never be written."""
+    repo = ctx.repo
+    n = 0
+    classes = [repo.cls("Protocol")] + repo.subclasses("Protocol")
+    for cls in classes:
+        for m in cls.methods.values():
+            for c in calls_in(m.node):
+                cn = call_name(c) or ""
+                if not (cn.endswith("_send_queue.put") or cn.endswith("_send_queue.put_nowait")):
+                    continue
+                n += 1
+                ctx.touch(m)
+                arg = c.args[0] if c.args else None
+                waited = isinstance(arg, ast.Name) and any(call_name(w) == f"{arg.id}.wait" for w in calls_in(m.node))
+                ctx.ob(rule, m.qualname, waited, "the queued block is awaited by the function that queued it" if waited else
+                       f"`{norm(c)[:80]}` queues a block that nobody waits for: the function returns before the transport has answered, so a send that fails afterwards (socket error, link reset) is still reported as successful",
+                       key="queued-block-awaited", where=m.where)
+    ctx.floor("writers of the send queue", n, 1)
 
 
 def check_block_send_info(ctx):
@@ -717,5 +746,6 @@ def run(ctx):
 
     check_process_send_queue(ctx)
     refmodels.guarded(ctx, "C10.P4", ["Protocol.send_message"], check_send_message)
+    check_send_queue_writers(ctx)
     check_block_send_info(ctx)
     check_linger(ctx)
